@@ -221,23 +221,22 @@ def send_update_message(peer_ip):
                             'code': 'unexpected extended community "%s", please check your post data' % key
                         })
             attr[16] = ext_community
-    if cfg.CONF.bgp.rib and ((attr and nlri) or withdraw):
-        # only what is going to be sent is recorded in the Adj-RIB-Out
-        result = api_utils.save_send_ipv4_policies(
-            msg={
-                'attr': attr,
-                'nlri': nlri,
-                'withdraw': withdraw
-            }
-        )
-        if not result.get('status'):
-            return flask.jsonify(result)
-    if (attr and nlri) or withdraw:
-        api_utils.update_send_version(peer_ip, attr, nlri, withdraw)
-        return flask.jsonify(api_utils.send_update(peer_ip, attr, nlri, withdraw))
-    elif 14 in attr or 15 in attr:
-        api_utils.update_send_version(peer_ip, attr, nlri, withdraw)
-        return flask.jsonify(api_utils.send_update(peer_ip, attr, nlri, withdraw))
+    if (attr and nlri) or withdraw or 14 in attr or 15 in attr:
+        result = api_utils.send_update(peer_ip, attr, nlri, withdraw)
+        if result.get('status'):
+            # only what went out is recorded in the Adj-RIB-Out and in the send versions
+            if cfg.CONF.bgp.rib and ((attr and nlri) or withdraw):
+                saved = api_utils.save_send_ipv4_policies(
+                    msg={
+                        'attr': attr,
+                        'nlri': nlri,
+                        'withdraw': withdraw
+                    }
+                )
+                if not saved.get('status'):
+                    return flask.jsonify(saved)
+            api_utils.update_send_version(peer_ip, attr, nlri, withdraw)
+        return flask.jsonify(result)
 
     else:
         return flask.jsonify({
